@@ -92,7 +92,7 @@ func frameCase(c *core.Ctx, t *core.Trace, gen string, cas int) error {
 	}
 	defer ln.Close()
 	lic := randLicense(r)
-	useQueue := r.Intn(4) == 0
+	useQueue := cas%40 == 7 // the queued path hands the pack to the background sender, which polls (up to 1.7 s per frame)
 	var opts []oneway.OneWayTcpClientOption
 	if r.Intn(2) == 0 {
 		opts = append(opts, oneway.WithServers([]string{ln.Addr().String()}), oneway.WithLicense(lic), oneway.WithPcode(valgen.RandInt64(r)))
@@ -112,6 +112,9 @@ func frameCase(c *core.Ctx, t *core.Trace, gen string, cas int) error {
 	defer conn.Close()
 
 	k := 1 + r.Intn(3)
+	if useQueue {
+		k = 1
+	}
 	for i := 0; i < k; i++ {
 		s := randShape(r, kinds[r.Intn(len(kinds))], true)
 		if i == 0 {
@@ -225,7 +228,7 @@ func Run(c *core.Ctx) error {
 
 	// gen "rand": random packs of every type
 	if c.WantGen("rand") {
-		n := c.Pick(22, 500)
+		n := c.Pick(60, 600)
 		cas := 0
 		for _, kind := range kinds {
 			for i := 0; i < n; i++ {
@@ -258,7 +261,7 @@ func Run(c *core.Ctx) error {
 
 	// gen "frame": through the real client to a loopback peer
 	if c.WantGen("frame") {
-		n := c.Pick(70, 1700)
+		n := c.Pick(150, 1700)
 		for cas := 0; cas < n; cas++ {
 			if !c.Want("frame", cas) {
 				continue
